@@ -142,7 +142,7 @@ def main(tier, replay=None):
                 continue
             if _norm(ref) != _norm(spec):
                 breaks.append("independent Go BIP-32 and the Coq specification disagree on %s: ref %s / spec %s" % (_show(case), _show(ref), _show(spec)))
-            if kind == "COMMUTE":
+            if kind == "COMMUTE" and int(inp.rsplit(",", 1)[1]) < 2 ** 31:   # the property speaks of non-hardened children
                 a, b = got.split(";")
                 if a != b:
                     c.violation("case:" + case, "Neuter(Child(k,i)) = %s but Child(Neuter(k),i) = %s" % (_show(a), _show(b)),
